@@ -741,8 +741,13 @@ def sign_scenario(t, ctx, pzX, pzY, ht, ht2, htW, mech, seed, tag):
             bad("sign(tx_in_idx_set={3}) changed something else", "sign-frame-broken", d)
         if not tx.is_solution_ok(3):
             bad("pre-signed companion input not valid", "signed-input-not-standard-valid")
-        # -- step 1: only input 0 asked, keys for X, Y and W on offer
+        # -- step 0b: an EMPTY request set asks for nothing: nothing may change (all keys on offer)
         offered = pzX.key_ids + pzY.key_ids + pzW.key_ids
+        do_sign(ctx, tx, mech, offered, pzX.lookup_scripts + pzY.lookup_scripts, ht, idx_set=[], uncompressed_wif=unc)
+        d = frame_diff(s0, snap(tx), may_change=())
+        if d:
+            bad("sign(tx_in_idx_set=set()) changed the transaction although no input was asked to be signed", "sign-empty-request-set-signs-inputs", d)
+        # -- step 1: only input 0 asked, keys for X, Y and W on offer
         do_sign(ctx, tx, mech, offered, scripts, ht, idx_set=[0], uncompressed_wif=unc)
         s1 = snap(tx)
         d = frame_diff(s0, s1, may_change=(0,))
